@@ -7,7 +7,7 @@ H = '/verif/xh/h_c20.py'
 def add_jobs(run, tier):
     jobs = []
     n = 4
-    for kind in ('SignatureArray', 'SignatureList', 'AnnotatedSignatures'):
+    for kind in ('SignatureArray', 'SignatureList', 'AnnotatedSignatures', 'HDF5Signatures'):
         b = {'container': kind, 'collection length': n}
         jobs.append(dict(path=H, fname='_c20_int', params={'n': n, 'kind': kind}, timeout=120, self_reach=True, label=f'{kind}: integer index',
                          bounds=dict(b, index=f'every int in [-{n + 2}, {n + 2}], python int and numpy scalar')))
